@@ -67,7 +67,7 @@ def gen_cases(ctx: Ctx):
         add(interp=its[i % len(its)], order=3, nv=8, tgrid=(0, 100, 5) if i % 2 else (0, 2, 5), system=s, keys=None,
             law="power", lattice=bool(i % 2))
     # 4. random mixtures
-    n_rand = 60 if ctx.thorough() else 6
+    n_rand = 250 if ctx.thorough() else 6
     for _ in range(n_rand):
         interp = str(rng.choice(list(ADMISSIBLE)))
         nv = int(rng.integers(5, 12))
